@@ -21,6 +21,11 @@ CLAIMED = {
         tech=TECH + "full solves under seeded schedules/clocks; statistic/schedule recomputation oracle"),
 }
 
+CLAIMED["C04"] = dict(level="exploration", ref="DESIGN.md 5/C04",
+    text="Seeded operator histories: a consistent individual is driven through scripts of 1..N steps over all shipped ruins, recreates, local operators and search operators under the simulated scheduler, clock (inner deadlines), hash order and optional counting quota; after every step the child is checked by R-inv (job bookkeeping, registry vs tours, tour well-formedness, hard constraints via the document oracles) and the parent digest must be unchanged.",
+    note="Operators built through public constructors with default-heuristic parameter ranges; ruin outputs are refreshed the way the next recreate does (InsertionContext::restore) before time rules are judged; no relations/locks in this scenario.",
+    tech=TECH + "operator-history search with per-step invariant checking against reference models; parent-unchanged digest")
+
 NOT_APPLICABLE = {
     "C06": "pure function of (tour, job, position): exhaustive small-scope enumeration against an oracle has no schedule, clock, fault or history for a simulator to act on",
     "C09": "order laws over triples of values: pure function of its inputs, nothing for a scheduler, clock or fault to act on",
@@ -33,7 +38,6 @@ NOT_APPLICABLE = {
 }
 
 PENDING = {
-    "C04": "check under construction in this framework (W2 operator histories)",
     "C05": "check under construction in this framework (cache digests, hooks H3/H4)",
     "C07": "check under construction in this framework (crash-point enumeration over quota polls)",
     "C08": "check under construction in this framework (population histories)",
